@@ -73,6 +73,9 @@ inline OV o_sumcols(OM const& m){ return o_sumrows(o_trans(m)); }
 inline OV o_maxrows(OM const& m){ return o_foldrows(f_max, m); }
 inline OV o_mincols(OM const& m){ return o_foldrows(f_min, o_trans(m)); }
 inline OV o_tovec(OM const& m){ return m.x; }
+// to_vector of a container linearises in STORAGE order: row-major for A, column-major for B
+inline OV o_tovecA(Store const& S, std::size_t k){ return o_A(S,k).x; }
+inline OV o_tovecB(Store const& S, std::size_t k){ OM m = o_B(S,k); OV r; for(std::size_t j = 0; j != m.n2; ++j) for(std::size_t i = 0; i != m.n1; ++i) r.push_back(m(i,j)); return r; }
 
 inline OM o_mrange(OM const& m, std::size_t s1, std::size_t e1, std::size_t s2, std::size_t e2){
 	need(s1 <= e1 && e1 <= m.n1 && s2 <= e2 && e2 <= m.n2, "mrange");
@@ -102,6 +105,8 @@ inline PV p_v(Store& S, std::size_t k){ PV r(S.v.at(k).size()); for(std::size_t 
 template<class M> inline PM p_mat(M& m){ PM r(m.size1(), m.size2()); for(std::size_t i = 0; i != r.n1; ++i) for(std::size_t j = 0; j != r.n2; ++j) r(i,j) = &m(i,j); return r; }
 inline PM p_A(Store& S, std::size_t k){ return p_mat(S.A.at(k)); }
 inline PM p_B(Store& S, std::size_t k){ return p_mat(S.B.at(k)); }
+inline PV p_tovecA(Store& S, std::size_t k){ return p_A(S,k).p; }
+inline PV p_tovecB(Store& S, std::size_t k){ PM m = p_B(S,k); PV r; for(std::size_t j = 0; j != m.n2; ++j) for(std::size_t i = 0; i != m.n1; ++i) r.push_back(m(i,j)); return r; }
 inline PV p_range(PV const& a, std::size_t s, std::size_t e){ need(s <= e && e <= a.size(), "p_range"); return PV(a.begin()+s, a.begin()+e); }
 inline PV p_row(PM const& m, std::size_t i){ need(i < m.n1, "p_row"); PV r(m.n2); for(std::size_t j = 0; j != m.n2; ++j) r[j] = m(i,j); return r; }
 inline PV p_col(PM const& m, std::size_t j){ need(j < m.n2, "p_col"); PV r(m.n1); for(std::size_t i = 0; i != m.n1; ++i) r[i] = m(i,j); return r; }
